@@ -23,6 +23,7 @@ def main(argv=None) -> int:
     ap.add_argument("--tier", default=os.environ.get("VERIF_TIER", "quick"), choices=["quick", "thorough"])
     ap.add_argument("--root", default=os.environ.get("VERIF_ROOT", "/repo"))
     ap.add_argument("--explain", default=None, help="print a stored report")
+    ap.add_argument("--no-evidence", action="store_true", help="do not write evidence/ or reports/ (self-test on scratch copies)")
     args = ap.parse_args(argv)
     if args.explain:
         print(json.dumps(json.load(open(args.explain)), indent=1))
@@ -32,6 +33,7 @@ def main(argv=None) -> int:
     try:
         model = Model(args.root)
         ctx = Ctx(prop, args.tier, model, seed)
+        ctx.write = not args.no_evidence
         mod = importlib.import_module(f"rules.{prop.lower()}")
         explanation = mod.run(ctx)
         return finish(ctx, explanation, getattr(mod, "LEVEL", "other"))
